@@ -38,7 +38,7 @@ class ControllerH(Harness):
         return TC.make_params(num_epochs=c["num_epochs"], early_stopping_threshold=thr[0], early_stopping_patience=c["es_pat"],
                               early_stopping_burnin=c["es_burn"], reduce_lr_threshold=thr[1], reduce_lr_factor=c["factor"],
                               reduce_lr_patience=c["rl_pat"], reduce_lr_cooldown=c["rl_cool"], reduce_lr_burnin=c["rl_burn"],
-                              keep_last_and_best_only=c.get("keep", True))
+                              keep_last_and_best_only=c.get("keep", True), reduce_lr_log10_epsilon=c.get("rl_log10_eps", -8))
 
     def _scenario(self, T, fs, p, vs, root, notes=None):
         """run E epochs, then restart after every prefix; returns list of (label, violated?) with cells.
@@ -189,7 +189,14 @@ def tasks(tier):
         ts.append(task(PROP, M_, "ControllerH", E=4, num_epochs=None, es_pat=1, es_burn=0, rl_pat=1, rl_burn=0, rl_cool=1, factor=0.25, thr=[0.0, 0.25], files=True, restart=True, keep=False, nvalidate=1))
         ts.append(task(PROP, M_, "ControllerH", E=3, num_epochs=None, es_pat=2, es_burn=0, rl_pat=1, rl_burn=0, rl_cool=0, factor=0.5, thr=[0.25, 0.25], files=True, restart=True, keep=True,
                        user_str=True, nvalidate=1))
+        # a coarse "negligible change" threshold (10^-1): the second cut 0.25 -> 0.0625 changes the rate by 0.1875 (applied), a third by 0.047 (not applied)
+        ts.append(task(PROP, M_, "ControllerH", E=4, num_epochs=None, es_pat=3, es_burn=1, rl_pat=1, rl_burn=0, rl_cool=0, factor=0.25, thr=[0.5, 0.25], files=False, restart=False, keep=True,
+                       rl_log10_eps=-1, nvalidate=1))
     else:
+        ts.append(task(PROP, M_, "ControllerH", E=4, num_epochs=None, es_pat=3, es_burn=1, rl_pat=1, rl_burn=0, rl_cool=0, factor=0.25, thr=[0.5, 0.25], files=True, restart=True, keep=True,
+                       rl_log10_eps=-1, nvalidate=1))
+        ts.append(task(PROP, M_, "ControllerH", E=4, num_epochs=None, es_pat=3, es_burn=0, rl_pat=1, rl_burn=0, rl_cool=1, factor=0.5, thr="sym", files=False, restart=False, keep=True,
+                       rl_log10_eps=-0.5, nvalidate=1))
         ts.append(task(PROP, M_, "ControllerH", E=3, num_epochs=None, es_pat=2, es_burn=1, rl_pat=2, rl_burn=0, rl_cool=1, factor=0.5, thr=[0.25, 0.5], files=True, restart=True, keep=False,
                        user_str=True, nvalidate=1))
         for es_pat, es_burn, rl_pat, rl_burn, rl_cool, ne in itertools.product([1, 2, 3], [0, 1, 2], [1, 2, 3], [0, 1], [0, 1, 2], [None, 2, 4]):
